@@ -23,6 +23,7 @@ type Step struct {
 }
 
 type Ev struct {
+	G      int64 // goroutine
 	Thread string
 	Label  string
 	Kind   string // pre, post, arm
@@ -44,6 +45,10 @@ var (
 	watched  = map[string]bool{} // labels subject to turn-based steps (Step.Label == "")
 	finished = map[string]bool{} // threads that will not arrive any more: their steps are skipped
 	inSelect = map[string]bool{} // threads currently inside a select: they cannot take a turn
+	grantedPos = -1              // script step whose gate has been passed but whose operation has not completed yet
+	grantedAt  time.Time
+	lastPos    = -1 // for detecting a step whose thread never shows up
+	lastPosAt  time.Time
 )
 
 // Watch sets the labels a step without a label stands for ("the thread's next watched operation").
@@ -112,6 +117,7 @@ func Start(s []Step) {
 	enabled, script, pos, trace, stuck = true, s, 0, nil, ""
 	holds, held = map[string]int{}, map[string]int{}
 	finished, inSelect = map[string]bool{}, map[string]bool{}
+	grantedPos, lastPos = -1, -1
 	mu.Unlock()
 	cond.Broadcast()
 }
@@ -191,7 +197,27 @@ func Pre(label string) {
 		if i < 0 {
 			break
 		}
+		if lastPos != pos {
+			lastPos, lastPosAt = pos, time.Now()
+		}
+		if grantedPos != pos && i != pos && time.Since(lastPosAt) > 40*time.Millisecond {
+			// nobody has come for the current step for a long time while we are waiting behind it:
+			// its thread has ended or is blocked elsewhere; the script moves on
+			pos++
+			skip()
+			cond.Broadcast()
+			continue
+		}
+		if grantedPos == pos && i != pos && time.Since(grantedAt) > 4*time.Millisecond {
+			// the operation of the current step has been entered but does not complete: it is
+			// blocked (e.g. a Lock behind another holder); the script moves on
+			pos++
+			skip()
+			cond.Broadcast()
+			continue
+		}
 		if i == pos {
+			grantedPos, grantedAt = pos, time.Now()
 			if script[pos].Blocks || isSelect(label) {
 				pos++
 				if isSelect(label) {
@@ -216,7 +242,7 @@ func Pre(label string) {
 		skip()
 		cond.Broadcast()
 	}
-	trace = append(trace, Ev{th, label, "pre", 0})
+	trace = append(trace, Ev{g, th, label, "pre", 0})
 }
 
 func after(label, kind string, arm int) {
@@ -224,7 +250,7 @@ func after(label, kind string, arm int) {
 	if enabled {
 		g := gid()
 		th := threadOf(g, label)
-		trace = append(trace, Ev{th, label, kind, arm})
+		trace = append(trace, Ev{g, th, label, kind, arm})
 		if kind == "arm" {
 			inSelect[th] = false
 		}
